@@ -638,3 +638,93 @@ Example shift_right_signed_is_not_logical :
   bin_eval BShr (TV KU 3 4) (TV KInt 0 1) = TV KU 3 2 /\
   sval 3 (pat KS 3 (-4) / 2) = 2.
 Proof. vm_compute. auto. Qed.
+
+(** ** shifts against numeric_std SHIFT_LEFT / SHIFT_RIGHT (the count is an integer: a Python int, or TO_INTEGER of an
+    Unsigned count), and resize against RESIZE *)
+Lemma nat_ok_of n : 0 <= n <= int_max -> nat_ok n = true.
+Proof. intros H. unfold nat_ok. apply andb_true_iff; split; apply Z.leb_le; lia. Qed.
+
+Lemma shl_wrap w v n : 0 <= n -> wrap w (shl_z w v n) = wrap w (v * 2 ^ n).
+Proof.
+  intros Hn. unfold shl_z. destruct (Z.leb_spec (Z.of_N w) n) as [H|H]; [|reflexivity].
+  unfold wrap, pow2. replace n with ((n - Z.of_N w) + Z.of_N w) at 1 by lia.
+  rewrite Z.pow_add_r by lia. rewrite Z.mul_assoc, Z.mod_mul by (apply Z.pow_nonzero; lia). apply Z.mod_0_l.
+  apply Z.pow_nonzero; lia.
+Qed.
+
+Lemma shr_exact_U w a n : 0 <= a < pow2 w -> 0 <= n -> shr_z w a n = a / 2 ^ n.
+Proof.
+  intros Ha Hn. unfold shr_z. destruct (Z.leb_spec (Z.of_N w) n) as [H|H]; [|reflexivity].
+  assert (P : pow2 w <= 2 ^ n) by (unfold pow2; apply Z.pow_le_mono_r; lia).
+  destruct (Z.ltb_spec a 0); [lia|]. symmetry. apply Z.div_small. lia.
+Qed.
+
+Lemma shr_exact_S w a n : (0 < w)%N -> - pow2 (w - 1) <= a < pow2 (w - 1) -> 0 <= n -> shr_z w a n = a / 2 ^ n.
+Proof.
+  intros Hw Ha Hn. unfold shr_z. destruct (Z.leb_spec (Z.of_N w) n) as [H|H]; [|reflexivity].
+  assert (P : pow2 (w - 1) <= 2 ^ n) by (unfold pow2; apply Z.pow_le_mono_r; lia).
+  assert (Q : 0 < 2 ^ n) by (apply Z.pow_pos_nonneg; lia).
+  destruct (Z.ltb_spec a 0) as [L|L].
+  - apply Z.div_unique with (r := a + 2 ^ n); lia.
+  - symmetry. apply Z.div_small. lia.
+Qed.
+
+Theorem shift_agrees_U w a n : rng KU w a -> 0 <= n <= int_max ->
+  eval_fn2 FShl (scalar_value KU w a) (VI n) = Ok (to_value (bin_eval BShl (TV KU w a) (TV KInt 0 n))) /\
+  eval_fn2 FShr (scalar_value KU w a) (VI n) = Ok (to_value (bin_eval BShr (TV KU w a) (TV KInt 0 n))).
+Proof.
+  intros Ha Hn. pose proof (rng_U _ _ Ha) as R. pose proof (nat_ok_of _ Hn) as E.
+  assert (L : (n <? 0) = false) by (apply Z.ltb_ge; lia).
+  split; cbn; rewrite E, L; unfold mkU, mk, norm; cbn.
+  - rewrite shl_wrap by lia. reflexivity.
+  - rewrite shr_exact_U by (try assumption; lia). reflexivity.
+Qed.
+
+Theorem shift_agrees_S w a n : rng KS w a -> 0 <= n <= int_max ->
+  eval_fn2 FShl (scalar_value KS w a) (VI n) = Ok (to_value (bin_eval BShl (TV KS w a) (TV KInt 0 n))) /\
+  eval_fn2 FShr (scalar_value KS w a) (VI n) = Ok (to_value (bin_eval BShr (TV KS w a) (TV KInt 0 n))).
+Proof.
+  intros Ha Hn. destruct (rng_S _ _ Ha) as [W R]. pose proof (nat_ok_of _ Hn) as E. pose proof (sval_in _ _ Ha) as Ea.
+  assert (L : (n <? 0) = false) by (apply Z.ltb_ge; lia).
+  split; cbn; rewrite E, L; unfold mkS, mk, norm; cbn.
+  - rewrite shl_wrap by lia. rewrite wrap_mul_l, wrap_sval_wrap. reflexivity.
+  - rewrite Ea. rewrite shr_exact_S by (try assumption; lia). rewrite wrap_sval_wrap. reflexivity.
+Qed.
+
+(** an Unsigned count reaches the shift function through TO_INTEGER; the documented value only depends on its number *)
+Theorem shift_count_unsigned op k w a wc n : (op = BShl \/ op = BShr) -> (k = KU \/ k = KS) -> 0 <= n <= int_max ->
+  eval_fn1 FToInteger (scalar_value KU wc n) = Ok (VI n) /\
+  bin_eval op (TV k w a) (TV KU wc n) = bin_eval op (TV k w a) (TV KInt 0 n).
+Proof.
+  intros Ho Hk Hn. split.
+  - cbn. destruct (Z.leb_spec n int_max); [reflexivity|lia].
+  - destruct Ho as [-> | ->], Hk as [-> | ->]; reflexivity.
+Qed.
+
+(** resize(n) (no zero padding): zero extension for Unsigned, sign extension for Signed *)
+Theorem resize_agrees k w a n : (k = KU \/ k = KS) -> rng k w a -> (w <= n)%N -> Z.of_N n <= int_max ->
+  eval_fn2 FResize (scalar_value k w a) (VI (Z.of_N n)) = Ok (to_value (xeval [] (XResize (XConst k w a) n 0))).
+Proof.
+  intros Hk Ha Hwn Hn. destruct Ha as [Wf Ra].
+  assert (E : nat_ok (Z.of_N n) = true) by (apply nat_ok_of; lia).
+  assert (C : (w + 0 <=? n)%N = true) by (apply N.leb_le; lia).
+  destruct Hk as [-> | ->]; cbn [xeval]; rewrite Wf, Ra; cbn [andb]; rewrite C.
+  - cbn. rewrite E, N2Z.id. unfold mk, norm. cbn. rewrite ?pow2_0, ?Z.mul_1_r. reflexivity.
+  - cbn. rewrite E, N2Z.id. unfold mk, norm. cbn. rewrite ?pow2_0, ?Z.mul_1_r.
+    assert (Ea : sval w (wrap w a) = a) by (apply sval_in; split; assumption).
+    unfold sresize. cbn in Wf. apply N.ltb_lt in Wf.
+    destruct (N.eqb_spec n 0); [lia|]. destruct (N.leb_spec w n); [|lia].
+    rewrite Ea, wrap_sval_wrap. reflexivity.
+Qed.
+
+(** resize(n, zeros=z) of an Unsigned: the emitted text is resize(unsigned(std_logic_vector(a) & "0..0"), n) *)
+Theorem resize_zeros_agrees_U w a n z : rng KU w a -> (w + z <= n)%N -> Z.of_N n <= int_max ->
+  (do c <- eval_binop OConcat (VV KSlv w a) (VV KSlv z 0); do u <- eval_fn1 FConvUns c; eval_fn2 FResize u (VI (Z.of_N n)))
+  = Ok (to_value (xeval [] (XResize (XConst KU w a) n z))).
+Proof.
+  intros Ha Hwn Hn. destruct Ha as [Wf Ra].
+  assert (E : nat_ok (Z.of_N n) = true) by (apply nat_ok_of; lia).
+  assert (C : (w + z <=? n)%N = true) by (apply N.leb_le; lia).
+  cbn [xeval]. rewrite Wf, Ra. cbn [andb]. rewrite C.
+  cbn. rewrite E, N2Z.id. unfold mk, norm. cbn. rewrite Z.add_0_r. reflexivity.
+Qed.
